@@ -372,13 +372,13 @@ def check_fixture(case):
 
 
 UNITS = [
-    Unit("verify", check_verify, strategy=_verify_cases, quick=112, thorough=2400, shards_quick=16,
+    Unit("verify", check_verify, shrink=False, strategy=_verify_cases, quick=112, thorough=2400, shards_quick=16,
          essential=["library=accept", "library=reject", "kind=malformed", "kind=mutated", "kind=root", "kind=delegation"],
          doc="verify-metadata: exit status / stdout of the three entry points == library verdict"),
     Unit("fixtures", check_fixture, enumerate=enum_fixtures, exhaustive=True, shards_quick=8,
          doc="shipped fixtures through the three entry points"),
-    Unit("sign_artifacts", check_sign, strategy=_sign_cases, quick=64, thorough=2400, shards_quick=16,
+    Unit("sign_artifacts", check_sign, shrink=False, strategy=_sign_cases, quick=64, thorough=2400, shards_quick=16,
          doc="sign-artifacts exits 0 only if the file is the expected signed document; failures leave it untouched"),
-    Unit("gpg_sign", check_gpg, strategy=_gpg_cases, quick=24, thorough=600, shards_quick=12,
+    Unit("gpg_sign", check_gpg, shrink=False, strategy=_gpg_cases, quick=24, thorough=600, shards_quick=12,
          doc="gpg-sign with real gpg via the stand-in: exit 0 only with a valid new OpenPGP-mode signature under q"),
 ]
